@@ -29,14 +29,14 @@ def run(ctx):
                         "protobuf / UnixFS decoding of a stored node is faithful"]
     ctx.cov["rule"] = ("G: one case per (width, leaf kind, n base chunks, m appended chunks, short last chunk of base / of the "
                        "appended data), enumerated by TLC; thorough = all n,m<=60 for w=2, all n,m<=32 for w=3,4, 1/5 of the rest; quick = the full "
-                       "product n<=20, m<=16 for w=2 and n<=10, m<=12 for w=3,4 plus a 1/97 seed-dependent sample of the rest up to 60x60. Each case = one real Append whose "
+                       "product n<=16, m<=12 for w=2 and n<=8, m<=12 for w=3,4 plus a 1/151 seed-dependent sample of the rest up to 60x60. Each case = one real Append whose "
                        "projected tree is decided by TLC (AppendOK). T: random base + chain of 1..4 appends. "
                        "non-trivial = the base already has sub-trickles (n > w) so the append path descends")
     q = ctx.quick
     ctx.specdir(SPEC)
     cfg = c07.write_gen_cfg(ctx, "gen_append.cfg", Kind='"append"', GN=60, GM=60, GWidths=c07.tset([2, 3, 4]),
-                            PartSel=ctx.seed % 7, SmallN=20 if q else 60, SmallM=16 if q else 60, SmallW=2,
-                            Small2N=10 if q else 32, Small2M=12 if q else 32, SampleMod=97 if q else 5, Salt=ctx.seed)
+                            PartSel=ctx.seed % 7, SmallN=16 if q else 60, SmallM=12 if q else 60, SmallW=2,
+                            Small2N=8 if q else 32, Small2M=12 if q else 32, SampleMod=151 if q else 5, Salt=ctx.seed)
     _, cases, binp = c07.parallel(
         lambda: ctx.tlc_mc(SPEC, "MCUnixFSFile.tla", "MCUnixFSFile.cfg" if q else "MCUnixFSFileBig.cfg", timeout=2400,
                            coverage=not q, workers=4 if q else 10),
